@@ -1,6 +1,6 @@
 """C01 - CASE admits only holders of a valid NOC of the addressed fabric."""
 from common import (mentions, false_edges_of_cmp, closure_in, async_body, closure_arg_sites, ok_return_bbs, variant_bbs, call_bbs,
-                    named_local, src_calls, src_fields, src_consts, result_used, RESULT, APPLY_ONCE)
+                    named_local, src_calls, src_fields, src_consts, result_used, RESULT, APPLY_ONCE, complete_removal_scan)
 from facts import AnchorLost, op_place
 import prims
 
@@ -192,6 +192,10 @@ def check(R):
             R.expect('P10', iu.fn, 'the record stored in the resumption cache is the caller\'s freshly built record, whole', from_arg and not stale and not [f for f in src_fields(s_) if f.startswith('records:')],
                      'records.push(record)', f'the stored record is assembled from an existing cache entry ({stale or sorted(src_fields(s_))[:3]}): fields not copied over - e.g. peer_cat_ids - keep the value of an earlier '
                      'certificate, and a resumed session is bound to them', iu.where(t.bb))
+        # a resumed session is bound to the fabric INDEX of its record, and indices are re-issued: a record must not survive the fabric it
+        # was made for (or the next fabric commissioned onto that index admits the old peer without any chain to its root)
+        complete_removal_scan(R, 'P4', R.body('sc::case::resumption::ResumableSessions::remove_for_fabric'), 'fab_idx:sc::case::resumption::ResumableSession',
+                              'the purge of a removed fabric drops every resumption record made for it')
         co = async_body(R, RESP + '::try_handle_sigma1_resume')
         g = lambda: R.call_guard(co, 'sc::case::casep::resume::verify_resume_mic')
         for adesc, names in (('mint new resumption id (Crypto::rand)', ('crypto::Crypto::rand',)),
